@@ -19,11 +19,17 @@ func init() {
 	register(&Property{
 		ID:    "C14",
 		Level: "other",
-		Explain: "Decides on the CFG of every method implementing minify.Minifier in the six format packages that success (`return nil`) is reported only after the final probe `w.Write(nil)` on the output writer whose error is tested and returned, and only when the lexer/parser stopped with io.EOF " +
+		Explain: "(R14.4) outside the probing minifiers no write to an io.Writer parameter loses its error; Decides on the CFG of every method implementing minify.Minifier in the six format packages that success (`return nil`) is reported only after the final probe `w.Write(nil)` on the output writer whose error is tested and returned, and only when the lexer/parser stopped with io.EOF " +
 			"(for JS: after js.Parse's error was returned); every other exit returns an error expression (R14.1, R14.2). Through the wrappers the error reaches the caller: the pipe protocol of Writer/Reader/responseWriter (wg.Add before go, deferred Done and pipe close, error stored, Close = close pipe → wait → read error; Reader closes the pipe with the error) is checked as ordering rules (R14.3). " +
 			"Not covered: that the dependency's lexers surface a reader error through Err() (read: parse.NewInput stores the io.ReadAll error; trusted).",
 		Run: runC14,
 	})
+	mutant(&Mutant{Name: "c14-cmd-copy-error-dropped", Property: "C14", File: "minify.go",
+		Old: "\t\tif _, werr := io.Copy(w, out); werr != nil && err == nil {\n\t\t\terr = werr\n\t\t}\n", New: "\t\tio.Copy(w, out)\n",
+		Rule: "R14.4", Construct: "cmdMinifier.Minify"})
+	mutant(&Mutant{Name: "c14-func-adapter-swallows-write", Property: "C14", File: "minify.go",
+		Old: "\treturn f(m, w, r, params)\n}", New: "\tif params == nil {\n\t\tw.Write(nil)\n\t}\n\treturn f(m, w, r, params)\n}",
+		Rule: "R14.4", Construct: "MinifierFunc.Minify"})
 	mutant(&Mutant{Name: "c14-json-no-probe", Property: "C14", File: "json/json.go",
 		Old: "\t\t\tif _, err := w.Write(nil); err != nil {\n\t\t\t\treturn err\n\t\t\t}\n", New: "",
 		Rule: "R14.1", Construct: "json.Minifier.Minify/return nil"})
@@ -50,6 +56,7 @@ func init() {
 func runC14(c *Ctx) {
 	c.r141()
 	c.pipeProtocol("R14.3")
+	c.r144()
 }
 
 // minifierMethods returns the Minify methods of type Minifier in the format packages.
@@ -561,3 +568,159 @@ func isErrNonNilOutcome(info *types.Info, y *flow.Node) bool {
 }
 
 var _ = packages.NeedName
+
+// R14.4: outside the ignore-then-probe minifiers, no write to the caller's writer loses its error.
+func (c *Ctx) r144() {
+	const rule = "R14.4"
+	c.R.Rule(rule, "library packages: in every function with an io.Writer parameter other than the six (*Minifier).Minify methods and helpers that are only called from them with their own writer (whose discarded writes are covered by the final probe, R14.1), each call that writes to that parameter — w.Write, io.Copy / io.CopyN / io.CopyBuffer / io.WriteString with it as destination, fmt.Fprint* — has its error result bound to a variable (not an expression statement, not `defer`/`go`, not `_`): a failing writer must surface from the call that was given it")
+	probed := map[*ast.FuncDecl]bool{}
+	for _, fd := range c.minifierMethods(rule) {
+		probed[fd] = true
+	}
+	// helpers of a probing minifier: functions whose every call site lies in a probing function and
+	// receives that function's own writer parameter are covered by the caller's final probe
+	for changed := true; changed; {
+		changed = false
+		for _, rel := range formatPkgs {
+			pk := c.P.Pkg(rel)
+			if pk == nil {
+				continue
+			}
+			info := pk.TypesInfo
+			for _, fd := range load.FuncDecls(pk) {
+				if fd.Body == nil || probed[fd] || paramOfType(info, fd, "io.Writer") == nil {
+					continue
+				}
+				wIdx := -1
+				k := 0
+				for _, f := range fd.Type.Params.List {
+					for range f.Names {
+						if types.TypeString(info.TypeOf(f.Type), nil) == "io.Writer" && wIdx < 0 {
+							wIdx = k
+						}
+						k++
+					}
+				}
+				self := info.Defs[fd.Name]
+				sites, covered := 0, 0
+				for _, caller := range load.FuncDecls(pk) {
+					if caller.Body == nil {
+						continue
+					}
+					cw := paramOfType(info, caller, "io.Writer")
+					ast.Inspect(caller.Body, func(x ast.Node) bool {
+						call, ok := x.(*ast.CallExpr)
+						if !ok || callee(info, call) != self {
+							return true
+						}
+						sites++
+						if probed[caller] && cw != nil && wIdx >= 0 && wIdx < len(call.Args) {
+							if id, isId := ast.Unparen(call.Args[wIdx]).(*ast.Ident); isId && info.Uses[id] == cw {
+								covered++
+							}
+						}
+						return true
+					})
+				}
+				if sites > 0 && sites == covered {
+					probed[fd] = true
+					changed = true
+				}
+			}
+		}
+	}
+	writerFuncs := map[string]int{ // callee -> index of the destination argument
+		"io.Copy": 0, "io.CopyN": 0, "io.CopyBuffer": 0, "io.WriteString": 0,
+		"fmt.Fprint": 0, "fmt.Fprintf": 0, "fmt.Fprintln": 0,
+	}
+	nFuncs, nWrites := 0, 0
+	for _, rel := range libPkgs {
+		pk := c.P.Pkg(rel)
+		if pk == nil {
+			continue
+		}
+		info := pk.TypesInfo
+		for _, fd := range load.FuncDecls(pk) {
+			if fd.Body == nil || probed[fd] {
+				continue
+			}
+			wObj := paramOfType(info, fd, "io.Writer")
+			if wObj == nil {
+				continue
+			}
+			nFuncs++
+			fname := pk.Name + "." + load.FuncName(fd)
+			isW := func(e ast.Expr) bool {
+				id, ok := ast.Unparen(e).(*ast.Ident)
+				return ok && info.Uses[id] == wObj
+			}
+			var bad []string
+			writes := 0
+			var visit func(n ast.Node, discarded string)
+			checkCall := func(call *ast.CallExpr, discarded string) {
+				isWrite := false
+				if sel, ok := call.Fun.(*ast.SelectorExpr); ok && sel.Sel.Name == "Write" && isW(sel.X) {
+					isWrite = true
+				}
+				if idx, ok := writerFuncs[calleeName(info, call)]; ok && idx < len(call.Args) && isW(call.Args[idx]) {
+					isWrite = true
+				}
+				if !isWrite {
+					return
+				}
+				writes++
+				if discarded != "" {
+					bad = append(bad, fmt.Sprintf("%s (%s) at %s", str(call), discarded, c.pos(call)))
+				}
+			}
+			visit = func(n ast.Node, discarded string) {
+				ast.Inspect(n, func(x ast.Node) bool {
+					switch s := x.(type) {
+					case *ast.ExprStmt:
+						if call, ok := ast.Unparen(s.X).(*ast.CallExpr); ok {
+							checkCall(call, "result dropped")
+							for _, a := range call.Args {
+								visit(a, "")
+							}
+							return false
+						}
+					case *ast.DeferStmt:
+						checkCall(s.Call, "deferred, result dropped")
+						if fl, ok := s.Call.Fun.(*ast.FuncLit); ok {
+							visit(fl.Body, "")
+						}
+						return false
+					case *ast.GoStmt:
+						checkCall(s.Call, "go statement, result dropped")
+						if fl, ok := s.Call.Fun.(*ast.FuncLit); ok {
+							visit(fl.Body, "")
+						}
+						return false
+					case *ast.AssignStmt:
+						if len(s.Rhs) == 1 {
+							if call, ok := ast.Unparen(s.Rhs[0]).(*ast.CallExpr); ok {
+								d := ""
+								if id, isId := s.Lhs[len(s.Lhs)-1].(*ast.Ident); isId && id.Name == "_" {
+									d = "error assigned to _"
+								}
+								checkCall(call, d)
+								return false
+							}
+						}
+					case *ast.CallExpr:
+						checkCall(s, "")
+					}
+					return true
+				})
+			}
+			visit(fd.Body, "")
+			nWrites += writes
+			if writes == 0 {
+				continue
+			}
+			c.R.Check(len(bad) == 0, rule, fname+"/writes to the io.Writer parameter keep their error", c.pos(fd), fmt.Sprintf("%d write(s), every error bound", writes), "the error of a write to the caller's writer is lost: "+strings.Join(bad, "; "))
+		}
+	}
+	c.R.Note("R14.4: %d functions with an io.Writer parameter outside the probing minifiers, %d direct writes", nFuncs, nWrites)
+	c.R.Floor(rule, "functions with an io.Writer parameter", nFuncs, 5)
+}
